@@ -1223,3 +1223,13 @@ def _find(t, pred, out=None):
                     if isinstance(y, tuple):
                         _find(y, pred, out)
     return out
+
+
+def norm_cmp(o):
+    """normalise an ordering comparison term so that the operator is Gt or Ge: Lt(a,b) -> Gt(b,a), Le(a,b) -> Ge(b,a)"""
+    if isinstance(o, tuple) and o and o[0] == 'bin':
+        if o[1] == 'Lt':
+            return ('bin', 'Gt', o[3], o[2])
+        if o[1] == 'Le':
+            return ('bin', 'Ge', o[3], o[2])
+    return o
